@@ -175,7 +175,17 @@ func run(repo, verif, out string) error {
 	}
 	// build mode constant of the scheduler package
 	modeFile := filepath.Join(gen, "verifrt_sched_zz_mode.go")
-	if err := os.WriteFile(modeFile, []byte(fmt.Sprintf("package sched\n\n// RaceBuild: every access reports to the race detector (vinstr -race); otherwise only maps and the listed racy sites.\nconst RaceBuild = %v\n", raceMode)), 0o644); err != nil {
+	var keys []string
+	for k := range racySites {
+		keys = append(keys, k)
+	}
+	sort.Strings(keys)
+	var lit strings.Builder
+	for _, k := range keys {
+		fmt.Fprintf(&lit, "\t%q: true,\n", k)
+	}
+	modeSrc := fmt.Sprintf("package sched\n\n// RaceBuild: the race detector only reports (vinstr -race); otherwise racing accesses become scheduling points.\nconst RaceBuild = %v\n\n// StaticRacy is racy_sites.txt at build time.\nvar StaticRacy = map[string]bool{\n%s}\n\nfunc init() {\n\tfor k := range StaticRacy {\n\t\tRacyActive[k] = true\n\t}\n}\n", raceMode, lit.String())
+	if err := os.WriteFile(modeFile, []byte(modeSrc), 0o644); err != nil {
 		return err
 	}
 	overlay[filepath.Join(repo, "verifrt", "sched", "zz_mode.go")] = modeFile
